@@ -1149,3 +1149,24 @@ m('I5-cached-fields-read-on-a-miss', 'C16', 'I5', 'StructSequenceGetFields/*iter
 m('I4-entries-bound-test-turned-round', 'C16', 'I4', 'PyTreeSpec::FlattenIntoWithPathImpl/TupleGetItem[counter]', 'src/treespec/flatten.cpp',
   """                        if (num_children >= node.arity) [[unlikely]] {""",
   """                        if (num_children < node.arity) [[unlikely]] {""")
+m('D5-with-path-step-claims-a-custom-node', 'C03', 'D5', 'PyTreeSpec::FlattenIntoWithPathImpl/found-custom', 'src/treespec/flatten.cpp',
+  """    bool found_custom = false;
+    Node node;
+    const ssize_t start_num_nodes = py::ssize_t_cast(m_traversal.size());
+    const ssize_t start_num_leaves = py::ssize_t_cast(leaves.size());
+
+    if (leaf_predicate &&
+        EVALUATE_WITH_LOCK_HELD2(thread_safe_cast<bool>((*leaf_predicate)(handle)),
+                                 handle,
+                                 *leaf_predicate)) [[unlikely]] {
+        py::tuple path{depth};""",
+  """    bool found_custom = true;
+    Node node;
+    const ssize_t start_num_nodes = py::ssize_t_cast(m_traversal.size());
+    const ssize_t start_num_leaves = py::ssize_t_cast(leaves.size());
+
+    if (leaf_predicate &&
+        EVALUATE_WITH_LOCK_HELD2(thread_safe_cast<bool>((*leaf_predicate)(handle)),
+                                 handle,
+                                 *leaf_predicate)) [[unlikely]] {
+        py::tuple path{depth};""")
